@@ -58,14 +58,48 @@ def _init_worker(modname):
     import yldprolog
     assert os.path.realpath(yldprolog.__file__).startswith(os.path.realpath(REPO) + os.sep), yldprolog.__file__
 
+def _impl_chunk(chunk):
+    return [_impl_one(c) for c in chunk]
+
 def run_impl(prop, cases, jobs=None):
+    """Runs prop.impl on every case in forked worker processes.  A worker that dies (CPython aborts the process on
+    some stack overflows) or a chunk that does not come back in time does not hang the check: its cases are re-run
+    one by one, each in a process of its own, and a case that kills its process is reported as ['harness-crashed']."""
+    import concurrent.futures as cf
     jobs = jobs or coqrun.NCPU
     if getattr(prop, 'IMPL_IN_PROCESS', False) or len(cases) < 8:
         _init_worker(prop.__name__)
         return [_impl_one(c) for c in cases]
     ctx = multiprocessing.get_context('fork')
-    with ctx.Pool(min(jobs, max(1, len(cases) // 4)), initializer=_init_worker, initargs=(prop.__name__,)) as pool:
-        return pool.map(_impl_one, cases, chunksize=max(1, min(64, len(cases) // (jobs * 4) or 1)))
+    nproc = min(jobs, max(1, len(cases) // 4))
+    size = max(1, min(64, len(cases) // (jobs * 4) or 1))
+    chunks = [(i, cases[i:i + size]) for i in range(0, len(cases), size)]
+    per_case = getattr(prop, 'CASE_TIMEOUT', 10)
+    out = [None] * len(cases)
+    redo = []
+    try:
+        with cf.ProcessPoolExecutor(nproc, mp_context=ctx, initializer=_init_worker, initargs=(prop.__name__,)) as ex:
+            futs = {ex.submit(_impl_chunk, ch): (i, ch) for i, ch in chunks}
+            for fut in futs:
+                i, ch = futs[fut]
+                try:
+                    res = fut.result(timeout=per_case * len(ch) + 600)
+                    out[i:i + len(ch)] = res
+                except Exception:
+                    redo.append((i, ch))
+    except Exception:
+        pass
+    for i, ch in chunks:
+        if out[i] is None and (i, ch) not in redo:
+            redo.append((i, ch))
+    for i, ch in redo:
+        for k, c in enumerate(ch):
+            try:
+                with cf.ProcessPoolExecutor(1, mp_context=ctx, initializer=_init_worker, initargs=(prop.__name__,)) as ex1:
+                    out[i + k] = ex1.submit(_impl_one, c).result(timeout=per_case + 120)
+            except Exception as e:
+                out[i + k] = ['harness-crashed', type(e).__name__]
+    return out
 
 # ------------------------------------------------------------------ model side
 
@@ -101,6 +135,11 @@ def judge(prop, case, impl_obs, model_obs):
     """None if the case is fine, else a short reason."""
     if isinstance(impl_obs, list) and impl_obs and impl_obs[0] == 'harness-timeout':
         return 'implementation did not finish within %ss' % getattr(prop, 'CASE_TIMEOUT', 10)
+    if isinstance(impl_obs, list) and impl_obs and impl_obs[0] == 'harness-crashed':
+        allow = getattr(prop, 'allow_harness_crash', None)
+        if not (allow and allow(case)):
+            return 'running the case killed the interpreter process (%s)' % impl_obs[1]
+        return None
     if isinstance(impl_obs, list) and impl_obs and impl_obs[0] == 'harness-raised':
         allow = getattr(prop, 'allow_harness_raise', None)
         if not (allow and allow(case, impl_obs)):
